@@ -54,10 +54,18 @@ def same(bits, a, b):
 def path_bits(path):
     b = Bits()
     for cond, truth, kind in path.pc:
-        if isinstance(truth, tuple) or cond[0] in ("tag", "tagflip"):
+        if cond[0] in ("tag", "tagflip"):
             continue
+        cond = norm(cond)
         try:
-            b.cond(cond, truth)
+            if isinstance(truth, tuple):
+                ty = term_ty(cond)
+                for v in truth[1]:
+                    b.cond(("bin", "Eq", cond, C(v, ty), "bool"), False)
+            elif isinstance(truth, bool):
+                b.cond(cond, truth)
+            else:
+                b.cond(("bin", "Eq", cond, C(truth, term_ty(cond)), "bool"), True)
         except Top:
             pass
     return b
